@@ -520,7 +520,7 @@ def _resolve_arg(action, choices, param, required, typ):
                 _required, action, choices, node, typ
             )
     if _required is None and (typ or "").lower() in frozenset(
-        ("str", "complex", "int", "float", "anystr", "list", "tuple", "dict")
+        ("str", "complex", "int", "float", "bool", "anystr", "list", "tuple", "dict")
     ):
         _required = True
 
